@@ -470,3 +470,20 @@ Check ref_fixups_at_operands : forall dbg e uo offsets ex pos offs bs fx,
   laid (write_op dbg e uo true offsets) pos ex offs bs fx ->
   forall k o u en size, nth_error ex k = Some o -> ref_operand e o = Some (REntry u en, size) ->
   exists p, nth_error offs k = Some p /\ In {| fx_offset := p + 1; fx_size := size; fx_unit := u; fx_entry := en |} fx.
+
+(* the DWARF 2-4 list (LocationListTable::write_loc, one list, have_base_address threaded): same statement as
+   loclist_v5_fixups with C16's write_list_v4; `tail` is the (0,0) terminator *)
+Theorem loclist_v4_fixups : forall dbg oe uo asz mk l hb pos bs fx,
+  UnitGlueWr.gwrite_list_v4 dbg oe uo asz mk hb pos l = Ok (bs, fx) -> pos + blen bs < 2 ^ 64 ->
+  exists raws chunks tail,
+    Forall2 (WriterGlueProofs.raw_rel dbg oe uo) l raws /\
+    ListsWr.write_list_v4 true (e_be oe) (e_version oe) asz mk hb raws = Ok bs /\
+    bs = concat chunks ++ tail /\ WriterGlueProofs.list_laid dbg oe uo pos l chunks fx.
+Proof. exact WriterGlueProofs.gwrite_list_v4_raw. Qed.
+
+Example loclist_v4_fixups_ex :
+  UnitGlueWr.gwrite_list_v4 true enc4 tbl 8 (2 ^ 64 - 1) false 64 [UnitGlueWr.GLStartEnd (ListWrSpec.AConst 1) (ListWrSpec.AConst 2) [WoCallRef (REntry 0 1)]] =
+    Ok ([x01; x00; x00; x00; x00; x00; x00; x00; x02; x00; x00; x00; x00; x00; x00; x00; x05; x00; x9a; x00; x00; x00; x00;
+         x00; x00; x00; x00; x00; x00; x00; x00; x00; x00; x00; x00; x00; x00; x00; x00],
+        [{| fx_offset := 83; fx_size := 4; fx_unit := 0; fx_entry := 1 |}]).
+Proof. vm_compute. reflexivity. Qed.
